@@ -453,6 +453,57 @@ func ruleDT3(c *Ctx) {
 	}
 	fn := c.Name(rd)
 	pathParam := rd.Params[0]
+	// every scanned line is counted: in the loop driven by scanner.Scan(), each trip from the loop header back to it
+	// passes an increment of a line counter (otherwise reported line numbers drift and a skipped line can make a
+	// corrupt, terminated line look like the torn tail)
+	{
+		var hdr *ssa.BasicBlock
+		for _, g := range c.unitOf(rd) {
+			for _, call := range callsNamed(g, "(*bufio.Scanner).Scan") {
+				if isLoopHeader(call.Block()) {
+					hdr = call.Block()
+				}
+			}
+		}
+		if hdr == nil {
+			c.bad(fn, "every-line-counted", c.FnPos(rd), "the loop over scanner.Scan() was not found")
+		} else {
+			g := hdr.Parent()
+			body := loopBlocks(hdr)
+			incBlocks := map[*ssa.BasicBlock]bool{}
+			for b := range body {
+				for _, in := range b.Instrs {
+					bo, ok := in.(*ssa.BinOp)
+					if !ok || bo.Op != token.ADD {
+						continue
+					}
+					if k, ok := constInt(bo.Y); !ok || k != 1 {
+						continue
+					}
+					if t, ok := bo.Type().Underlying().(*types.Basic); !ok || t.Info()&types.IsInteger == 0 {
+						continue
+					}
+					incBlocks[b] = true
+				}
+			}
+			// from the body entry (the Scan()==true successor), can the header be reached again avoiding every increment?
+			skip := false
+			if len(incBlocks) > 0 {
+				for i, succ := range hdr.Succs {
+					_ = i
+					if !body[succ] || incBlocks[succ] {
+						continue
+					}
+					if reach(succ, nil, incBlocks)[hdr] {
+						skip = true
+					}
+				}
+			}
+			_ = g
+			c.check(len(incBlocks) > 0 && !skip, fn, "every-line-counted", c.Pos(hdr.Instrs[0].Pos()), "each scanned line increments the line counter",
+				"a scanned line can be skipped without being counted: the line number in parse errors no longer matches the file, and a skipped tail lets a corrupt newline-terminated line pass for a torn one")
+		}
+	}
 	// the Unmarshal failure edge leads to an error built from path and a line number
 	fns := c.unitOf(rd)
 	okLoc := false
@@ -939,20 +990,39 @@ func (c *Ctx) compactGuards(ce *ssa.Function) {
 			continue
 		}
 		cond := ""
-		for _, bf := range branchFacts(ce) {
+		ef := em.Call.Parent()
+		hdr := enclosingLoopHeader(em.Call.Block())
+		var body map[*ssa.BasicBlock]bool
+		if hdr != nil {
+			body = loopBlocks(hdr)
+		}
+		for _, bf := range branchFacts(ef) {
 			curEnv = bf.A.Env
+			if bf.Derived {
+				continue
+			}
 			if !(bf.E.To() == em.Call.Block() || bf.E.To().Dominates(em.Call.Block())) {
 				continue
 			}
-			l := c.atomLabel(bf.A)
-			if l == "range-ok" || strings.HasPrefix(l, "cmp:") || strings.HasPrefix(l, "err:") {
+			// only conditions evaluated per element: branches inside the innermost loop of the emission
+			if body == nil || !body[bf.E.From] {
 				continue
 			}
-			// only conditions inside the innermost loop of the emission
-			if reach(bf.E.From, nil, nil)[em.Call.Block()] && reach(em.Call.Block(), nil, nil)[bf.E.From] && !strings.HasPrefix(l, "E.ClaimedBy") && !strings.Contains(l, "==V") && !strings.HasPrefix(l, "E.IsEpic") && l != "bool" && !strings.HasPrefix(l, "call:") && !strings.HasPrefix(l, "E==nil") {
-				cond = l
+			l := c.atomLabel(bf.A)
+			if bf.E.From == hdr {
+				continue // the loop's own continuation test
 			}
+			if l == "range-ok" || strings.HasPrefix(l, "err:") || strings.HasPrefix(l, "E==nil") {
+				continue
+			}
+			if bf.A.Kind == "nil" {
+				if cl, _ := callOf(bf.A.X); cl != nil {
+					continue // an error result tested
+				}
+			}
+			cond = l
 		}
+		curEnv = nil
 		c.check(cond == "", fn, "e:emits "+t+" unconditionally", c.Pos(em.Call.Pos()), t+" events are re-emitted for every element", t+" re-emission depends on "+cond)
 	}
 }
